@@ -2901,7 +2901,16 @@ impl Typer {
                 }
 
                 if !field_map.is_empty() {
-                    let extra = field_map.keys().cloned().collect::<Vec<_>>().join(", ");
+                    // List the unknown fields in the order they are written: `field_map` is a
+                    // HashMap, its key order changes with the hash seed.
+                    let mut extra: Vec<String> = Vec::new();
+                    for (fname, _) in fields.iter() {
+                        let fname = fname.to_ident_name();
+                        if field_map.contains_key(&fname) && !extra.contains(&fname) {
+                            extra.push(fname);
+                        }
+                    }
+                    let extra = extra.join(", ");
                     super::util::push_error(
                         diagnostics,
                         format!(
